@@ -269,3 +269,69 @@ def check(case):
     return ok(labels, nontrivial or (bool(entries) and len(flagged) >= 2),
               sig=case_sig([text, argv]),
               counts={'entries': len(entries), 'flagged': len(flagged)})
+
+
+# -- deterministic part: a flag on every kind of macrobody, written plainly,
+#    with a transformation number on the card, and in a cell under TRCL -------
+
+def extra(tier, seed, stats):
+    from . import c17
+    from .. import gen
+    found = {}
+    n = 0
+    tr_specs = {
+        'tr-translation': md.trspec([0.5, -0.25, 1.0], None, n_entries=3),
+        'tr-rotation': md.trspec([0.5, -0.25, 1.0],
+                                 [0.0, 1.0, 0.0, -1.0, 0.0, 0.0, 0.0, 0.0, 1.0]),
+    }
+    for kind in gen.MACROS:
+        cards = c17._grab(gen.macro_params(kind), seed * 77 + len(kind),
+                          1 if tier == 'quick' else 4)
+        for k, p, _lab in cards:
+            for flag in '*+':
+                for variant in ('plain', 'tr-translation', 'tr-rotation',
+                                'cell-trcl'):
+                    d = md.new_deck()
+                    s_ = md.surf(1, k, p)
+                    s_['bc'] = flag
+                    if variant in tr_specs:
+                        d['transforms'].append({'id': 3,
+                                                'spec': tr_specs[variant]})
+                        s_['tr'] = 3
+                    d['surfaces'].append(s_)
+                    d['surfaces'].append(md.surf(2, 'so', [60.0]))
+                    inner = md.cell(1, 0, None, md.S(-1), imp={'n': 1})
+                    if variant == 'cell-trcl':
+                        inner['trcl'] = {'inline': tr_specs['tr-translation']}
+                    d['cells'] = [inner,
+                                  md.cell(2, 0, None,
+                                          md.AND(md.CELLC(1), md.S(-2)),
+                                          imp={'n': 1}),
+                                  md.cell(3, 0, None, md.S(2), imp={'n': 0})]
+                    text = mr.render(d)
+                    # control: the same deck without the flag converts
+                    if flag == '*':
+                        s_['bc'] = ''
+                        base = conv.convert(mr.render(d))
+                        s_['bc'] = flag
+                        if not base.ok:
+                            from ..runner import HarnessError
+                            raise HarnessError(
+                                'unflagged control deck does not convert: '
+                                '%s\n%s' % (base.brief(), mr.render(d)))
+                    res = conv.convert(text, [])
+                    n += 1
+                    stats.counts['extra_nontrivial'] += 1
+                    stats.labels.update(['flagged-macrobody-fixed:' + variant])
+                    if res.ok:
+                        single = mgeom.n_facets(k, p) == 1
+                        bucket = 'flagged-macrobody-accepted:%s:%s:%s' % (
+                            'single-facet' if single else 'multi-facet',
+                            k.lower(), variant)
+                        found.setdefault(bucket, (
+                            {'deck': d, 'labels': ['flagged-macrobody'],
+                             'argv': [], 'box': 8.0, 'pseed': 1},
+                            {'deck': text, 'flag': flag}))
+    stats.counts['flagged_macrobody_decks'] = n
+    stats.counts['extra_evaluations'] += n
+    return found
